@@ -96,6 +96,10 @@ fn main() {
         l0span_stream(&a);
         return;
     }
+    if a.stream == "plan" {
+        plan_stream(&a);
+        return;
+    }
     let (crashes, immut) = match a.stream.as_str() {
         "compact" => (false, false),
         "compactcrash" => (true, false),
@@ -323,6 +327,138 @@ pub fn compactkill_stream(a: &snel_harness::out::Args) {
         match fail {
             None => st.oracle_ok(),
             Some((c, d)) => st.oracle_fail(i, &c, &format!("{d}; {desc}")),
+        }
+    }
+    st.finish();
+}
+
+/// C05: the real `KWayCountPolicy::plan` and `SegmentBatch::group_plans` on generated segment
+/// indexes (no engine), against `planAll` / `groupPlans` of the model. Oracle: the side condition
+/// of the round theorem (`GoodBatches`: output ids pairwise distinct, none an index label) must
+/// hold whenever no level's offsets run past the level span (`C05_planner_outputs_fresh`).
+pub fn plan_stream(a: &snel_harness::out::Args) {
+    use snel_db::engine::core::compaction::policy::{CompactionPolicy, KWayCountPolicy};
+    use snel_db::engine::core::compaction::segment_batch::SegmentBatch;
+    use snel_db::engine::core::{SegmentEntry, SegmentIndex};
+    const SPAN: u32 = 10_000;
+    let mut st = Stream::create(&a.out, "plan");
+    let rt = tokio::runtime::Builder::new_current_thread().enable_all().build().unwrap();
+    let empty_dir = a.out.join("plan-empty-shard");
+    let _ = std::fs::remove_dir_all(&empty_dir);
+    std::fs::create_dir_all(&empty_dir).unwrap();
+    // witnesses first: allocator offsets running past the span into the next level's range
+    let wits: Vec<(usize, Vec<(u32, Vec<u32>)>)> = vec![
+        (2, vec![(0, vec![0]), (1, vec![0]), (19999, vec![0]), (20000, vec![0])]),
+        (2, vec![(0, vec![0]), (1, vec![0]), (2, vec![0]), (3, vec![0]), (19998, vec![1]), (20000, vec![1])]),
+    ];
+    let nw = wits.len() as u64;
+    for i in 0..(a.cases + nw) {
+        if a.only.is_some_and(|o| o != i) {
+            continue;
+        }
+        let (k, entries): (usize, Vec<(u32, Vec<u32>)>) = if i < nw {
+            st.tally("witness");
+            wits[i as usize].clone()
+        } else {
+            let mut r = Rng::for_case(a.seed, "plan", i - nw);
+            let k = 2 + r.below(5) as usize;
+            let ntypes = 1 + r.below(3) as u32;
+            let nlevels = 1 + r.below(3) as u32;
+            let high = r.below(12) == 0; // offsets near the top of a level
+            let mut es: Vec<(u32, Vec<u32>)> = Vec::new();
+            for lvl in 0..nlevels {
+                let n = r.below(2 * k as u64 + 3);
+                let mut offs = std::collections::BTreeSet::new();
+                for _ in 0..n {
+                    let o = if high && r.below(2) == 0 { SPAN - 1 - r.below(4) as u32 } else { r.below(40) as u32 };
+                    offs.insert(o);
+                }
+                for o in offs {
+                    let mut tys: Vec<u32> = (0..ntypes).filter(|_| r.below(4) != 0).collect();
+                    if tys.is_empty() {
+                        tys.push(r.below(ntypes as u64) as u32);
+                    }
+                    es.push((lvl * SPAN + o, tys));
+                }
+            }
+            // entry order in the index is arbitrary
+            for j in (1..es.len()).rev() {
+                let t = r.below(j as u64 + 1) as usize;
+                es.swap(j, t);
+            }
+            (k, es)
+        };
+        let idx_txt = if entries.is_empty() {
+            "-".to_string()
+        } else {
+            entries.iter().map(|(l, t)| format!("{l}:{}", t.iter().map(|x| x.to_string()).collect::<Vec<_>>().join(","))).collect::<Vec<_>>().join(";")
+        };
+        let op = format!("plan k={k} idx={idx_txt}");
+        // an empty shard directory loads as an empty index; entries go in through the public insert
+        let mut index = rt.block_on(SegmentIndex::load(&empty_dir)).expect("empty index");
+        for (l, t) in &entries {
+            index.insert_entry(SegmentEntry { id: *l, uids: t.iter().map(|x| format!("u{x}")).collect() });
+        }
+        let plans = KWayCountPolicy::new(k).plan(&index);
+        let ty_of = |u: &str| u[1..].parse::<u32>().unwrap();
+        let lab = |v: &Vec<String>| -> Vec<u32> { v.iter().map(|s| s.parse::<u32>().unwrap()).collect() };
+        let join = |v: &Vec<u32>| if v.is_empty() { "-".to_string() } else { v.iter().map(|x| x.to_string()).collect::<Vec<_>>().join(",") };
+        let mut ps: Vec<(u32, u32, Vec<u32>, u32)> =
+            plans.iter().map(|p| (p.level_from, ty_of(&p.uid), lab(&p.input_segment_labels), p.output_segment_id)).collect();
+        ps.sort();
+        let mut detail: Option<String> = None;
+        for p in &plans {
+            if p.level_to != p.level_from + 1 {
+                detail.get_or_insert(format!("plan targets level {} from {}", p.level_to, p.level_from));
+            }
+        }
+        let batches = SegmentBatch::group_plans(plans.clone());
+        let mut bs: Vec<(usize, Vec<u32>, Vec<u32>)> = batches
+            .iter()
+            .map(|b| {
+                let mut inputs = lab(&b.input_segment_labels);
+                inputs.sort();
+                let first = ps.iter().position(|p| { let mut q = p.2.clone(); q.sort(); q == inputs }).unwrap_or(usize::MAX);
+                let mut tys: Vec<u32> = b.uid_plans.iter().map(|u| ty_of(&u.uid)).collect();
+                tys.sort();
+                (first, inputs, tys)
+            })
+            .collect();
+        bs.sort();
+        let mut outs: Vec<u32> = ps.iter().map(|p| p.3).collect();
+        outs.sort();
+        let labels: std::collections::BTreeSet<u32> = entries.iter().map(|e| e.0).collect();
+        let distinct = outs.windows(2).all(|w| w[0] != w[1]);
+        let fresh = outs.iter().all(|o| !labels.contains(o));
+        let good = distinct && fresh;
+        let sh = |v: Vec<String>| if v.is_empty() { "-".to_string() } else { v.join(";") };
+        let imp = format!(
+            "plans={} outs={} batches={} good={}",
+            sh(ps.iter().map(|p| format!("{}/{}/{}", p.0, p.1, join(&p.2))).collect()),
+            join(&outs),
+            sh(bs.iter().map(|b| format!("{}/{}", join(&b.1), join(&b.2))).collect()),
+            if good { 1 } else { 0 }
+        );
+        // the bound of the theorem: next offset of every level + number of plans <= span
+        let mut next_off: std::collections::BTreeMap<u32, u32> = Default::default();
+        for l in &labels {
+            let e = next_off.entry(l / SPAN).or_insert(0);
+            *e = (*e).max(l % SPAN + 1);
+        }
+        let no_overflow = next_off.values().all(|o| *o as usize + ps.len() <= SPAN as usize);
+        st.tally(if ps.is_empty() { "no_plan" } else if bs.iter().any(|b| b.2.len() > 1) { "multi_uid_batch" } else { "single_uid_batches" });
+        st.tally(if no_overflow { "within_span" } else { "offsets_past_span" });
+        st.tally_n("plans", ps.len() as u64);
+        st.case(&op, &imp, !ps.is_empty());
+        if detail.is_none() && !good {
+            detail = Some(format!("output ids {outs:?} are not pairwise distinct and unused (labels {labels:?})"));
+        }
+        match detail {
+            None => st.oracle_ok(),
+            Some(d) => {
+                let class = if !no_overflow { "allocator-offset-runs-past-level-span" } else { "-" };
+                st.oracle_fail(i, class, &format!("{d}; {op}"))
+            }
         }
     }
     st.finish();
